@@ -86,6 +86,23 @@ func genC15(g *Gen) {
 		cs3.Tags = append(cs3.Tags, "witness:F54")
 		g.Add(cs3)
 	}
+	// names that begin with a separator character or extend the name of a sibling namespace by a
+	// character that sorts below the separator (built without PathSep: every key is one name)
+	odd := TreeCfg{Keys: []string{".h", "a", "a-b", "/v", "a-", "a.b", "b", "-"}, MaxDepth: 3, MaxWidth: 4, PNil: 2, PEmpty: 1}
+	for i := 0; i < g.N/6+3; i++ {
+		ma := randMap(r, odd, 0)
+		ma["a"] = map[string]interface{}{"x": randScalar(r), ".y": randScalar(r)}
+		if r.Bool() {
+			ma["a-b"] = randScalar(r)
+		}
+		c, err := ucfg.NewFrom(ma)
+		if err != nil {
+			continue
+		}
+		cs := c15Snapshot(c, false, []string{"NewFrom(" + descTree(ma) + ") without PathSep"})
+		cs.Tags = append(cs.Tags, "odd-names")
+		g.Add(cs)
+	}
 	names := []string{"a", "b", "l", "a.b", "a.l", "l.0", "l.1", "a.b.c", "b.0.x", "", "c"}
 	for i := 0; i < g.N; i++ {
 		init := randMap(r, tc, 0)
@@ -203,8 +220,16 @@ func genC15(g *Gen) {
 	// diff
 	for i := 0; i < g.N/2; i++ {
 		var ta, tb interface{}
-		ma := randMap(r, tc, 0)
-		mb, _ := mutateTree(r, tc, ma, 0).(map[string]interface{})
+		dtc := tc
+		if r.P(1, 4) {
+			dtc = odd
+		}
+		ma := randMap(r, dtc, 0)
+		if r.P(1, 4) {
+			ma["a"] = map[string]interface{}{"x": randScalar(r), "t": randScalar(r)}
+			ma["a-b"] = randScalar(r)
+		}
+		mb, _ := mutateTree(r, dtc, ma, 0).(map[string]interface{})
 		if r.P(1, 8) {
 			mb = ma
 		}
